@@ -75,3 +75,145 @@ Example decodes_quoted_documents :
   stored_labels_fallback qp_scan VMain (bytes_of "{""a"":""b""") = Malformed /\
   stored_labels_fallback qp_scan VMain (bytes_of "v0""\") = Malformed.
 Proof. repeat split; vm_compute; reflexivity. Qed.
+
+(* ---------------------------------------------------------------------------------------------------------------------
+   Round 8: termination of the decoder loop (was: tested on fuel len(doc)+1, not proved). *)
+
+Definition consumes_something (qp : bytes -> option nat) : Prop := forall s n, qp s = Some n -> 1 <= n <= List.length s.
+
+Lemma consumes_returns_a_prefix : forall qp, consumes_something qp -> returns_a_prefix qp.
+Proof. intros qp H s n E. apply H in E. lia. Qed.
+
+Lemma trim_left_length : forall cut s, List.length (trim_left cut s) <= List.length s.
+Proof. intros cut s. induction s as [|c t IH]; simpl; [lia|]. destruct (cut c); simpl; lia. Qed.
+
+Lemma trim_space_length : forall s, List.length (trim_space s) <= List.length s.
+Proof.
+  intros s. unfold trim_space. rewrite rev_length.
+  pose proof (trim_left_length is_space (rev (trim_left is_space s))) as H1. rewrite rev_length in H1.
+  pose proof (trim_left_length is_space s). lia.
+Qed.
+
+Lemma decoder_start_length : forall doc, List.length (decoder_start doc) <= List.length doc.
+Proof.
+  intros doc. unfold decoder_start, trim_prefix_brace. pose proof (trim_space_length doc) as H.
+  destruct (trim_space doc) as [|c t]; [exact H|]. destruct (Ascii.eqb c "{") eqn:E.
+  - apply Ascii.eqb_eq in E. subst c. simpl in *. lia.
+  - destruct c as [[] [] [] [] [] [] [] []]; try exact H; simpl in *; lia.
+Qed.
+
+(* every successful QuotedPrefix round makes the text shorter *)
+Lemma take_quoted_shrinks : forall qp v, consumes_something qp -> forall name rest r,
+  take_quoted qp v name rest = SGo r -> List.length r < List.length rest.
+Proof.
+  intros qp v H name rest r. unfold take_quoted. destruct (qp rest) as [n|] eqn:E; [|discriminate].
+  apply H in E. unfold slice_from. destruct (Nat.leb n (List.length rest)) eqn:L; [|discriminate].
+  assert (SK : List.length (skipn n rest) < List.length rest)  by (rewrite skipn_length; lia).
+  pose proof (trim_left_length is_sep (skipn n rest)) as T1.
+  pose proof (trim_left_length is_blank (skipn n rest)) as T2.
+  pose proof (trim_left_length is_sep (trim_left is_blank (skipn n rest))) as T3.
+  destruct v.
+  - intro Q. inversion Q. lia.
+  - destruct name.
+    + unfold index. destruct (nth_error (trim_left is_blank (skipn n rest)) 0); [|discriminate].
+      destruct (a =? ":"); [|discriminate]. intro Q. inversion Q. lia.
+    + intro Q. inversion Q. lia.
+  - destruct name.
+    + destruct (trim_left is_blank (skipn n rest)) as [|a l] eqn:R; [discriminate|].
+      destruct (a =? ":"); [|discriminate]. intro Q. injection Q as Q1. rewrite <- Q1. change (List.length (trim_left is_sep (a :: l)) < List.length rest). lia.
+    + intro Q. inversion Q. lia.
+Qed.
+
+(* the loop with fuel IS the loop without, whenever the fuel exceeds the text; completed rounds are at most half its length *)
+Lemma pairs_loop_is_loop_run : forall qp v, consumes_something qp -> forall fuel rest n, List.length rest < fuel ->
+  exists k, loop_run qp v rest n k (pairs_loop qp v fuel rest n) /\ 2 * k <= List.length rest.
+Proof.
+  intros qp v H fuel. induction fuel as [|f IH]; intros rest n L; [lia|]. simpl.
+  destruct rest as [|c t].
+  - exists 0. split; [apply LR_exit; reflexivity|lia].
+  - destruct (c =? """") eqn:Q.
+    + destruct (take_quoted qp v true (c :: t)) as [| |r1] eqn:E1.
+      * exists 0. split; [apply LR_panic1; [simpl; exact Q|exact E1]|lia].
+      * exists 0. split; [apply LR_err1; [simpl; exact Q|exact E1]|lia].
+      * pose proof (take_quoted_shrinks qp v H _ _ _ E1) as S1.
+        destruct (take_quoted qp v false r1) as [| |r2] eqn:E2.
+        -- exists 0. split; [eapply LR_panic2; [simpl; exact Q|exact E1|exact E2]|lia].
+        -- exists 0. split; [eapply LR_err2; [simpl; exact Q|exact E1|exact E2]|lia].
+        -- pose proof (take_quoted_shrinks qp v H _ _ _ E2) as S2.
+           destruct (IH r2 (S n)) as [k [R B]]; [lia|].
+           exists (S k). split; [eapply LR_round; [simpl; exact Q|exact E1|exact E2|exact R]|lia].
+    + exists 0. split; [apply LR_exit; simpl; exact Q|lia].
+Qed.
+
+Lemma loop_run_deterministic : forall qp v rest n k o, loop_run qp v rest n k o ->
+  forall k' o', loop_run qp v rest n k' o' -> k' = k /\ o' = o.
+Proof.
+  intros qp v rest n k o R. induction R as [rest n Q|rest n Q E1|rest n Q E1|rest n r1 Q E1 E2|rest n r1 Q E1 E2|rest n r1 r2 k o Q E1 E2 R IH];
+    intros k' o' R'; inversion R'; subst;
+    repeat match goal with
+    | A : take_quoted ?q ?w ?b ?r = SGo ?x, B : take_quoted ?q ?w ?b ?r = SGo ?y |- _ =>
+        assert (x = y) by congruence; try subst y; clear B
+    end; try congruence; try (split; reflexivity).
+  match goal with X : loop_run _ _ _ (S _) _ _ |- _ => apply IH in X; destruct X; subst; split; reflexivity end.
+Qed.
+
+(* TERMINATION: for every text and every QuotedPrefix that consumes at least one byte of its argument, Go's loop (no fuel) ends,
+   after at most len(doc)/2 completed rounds, in exactly the outcome the executable model computes -- for all three variants *)
+Theorem decoder_loop_terminates : forall qp v, consumes_something qp -> forall doc,
+  exists k, loop_run qp v (decoder_start doc) 0 k (stored_labels_fallback qp v doc) /\ 2 * k <= List.length doc /\
+            forall k' o', loop_run qp v (decoder_start doc) 0 k' o' -> k' = k /\ o' = stored_labels_fallback qp v doc.
+Proof.
+  intros qp v H doc. pose proof (decoder_start_length doc) as L.
+  destruct (pairs_loop_is_loop_run qp v H (S (List.length doc)) (decoder_start doc) 0) as [k [R B]]; [lia|].
+  exists k. split; [exact R|]. split; [lia|]. intros k' o' R'. eapply loop_run_deterministic; eauto.
+Qed.
+
+(* main's decoder: ends, and not in a panic *)
+Theorem series_decoder_total_on_main : forall qp, consumes_something qp -> forall doc,
+  exists k o, loop_run qp VMain (decoder_start doc) 0 k o /\ o <> Panic /\ 2 * k <= List.length doc.
+Proof.
+  intros qp H doc. destruct (decoder_loop_terminates qp VMain H doc) as [k [R [B _]]].
+  exists k, (stored_labels_fallback qp VMain doc). split; [exact R|]. split; [|exact B].
+  apply stored_labels_never_panics, consumes_returns_a_prefix, H.
+Qed.
+
+(* the hypothesis is needed: a QuotedPrefix that reports success on an empty prefix makes the loop spin on one quote forever *)
+Theorem decoder_needs_a_consuming_quoted_prefix : forall n k o, ~ loop_run qp_nothing VMain [""""] n k o.
+Proof.
+  intros n k o R. remember [""""] as rest eqn:E. induction R; subst.
+  - discriminate.
+  - vm_compute in H0. discriminate.
+  - vm_compute in H0. discriminate.
+  - vm_compute in H0. inversion H0. subst. vm_compute in H1. discriminate.
+  - vm_compute in H0. inversion H0. subst. vm_compute in H1. discriminate.
+  - vm_compute in H0. inversion H0. subst. vm_compute in H1. inversion H1. subst. apply IHR. reflexivity.
+Qed.
+
+Lemma qp_scan_from_ge : forall s k e n, qp_scan_from s k e = Some n -> k < n.
+Proof.
+  induction s as [|c t IH]; intros k e n; simpl; [discriminate|].
+  destruct e; [intro H; apply IH in H; lia|].
+  destruct (c =? "\"); [intro H; apply IH in H; lia|].
+  destruct (c =? """"); [intro H; inversion H; lia|intro H; apply IH in H; lia].
+Qed.
+
+(* the hypothesis is satisfiable: the scanner of the tie takes at least the two quotes *)
+Lemma qp_scan_consumes : consumes_something qp_scan.
+Proof.
+  intros s n E. split; [|apply qp_scan_returns_a_prefix in E; exact E].
+  destruct s as [|c t]; simpl in E; [discriminate|]. destruct (c =? """"); [|discriminate].
+  apply qp_scan_from_ge in E. lia.
+Qed.
+
+Example decoder_runs_two_rounds :
+  exists k, loop_run qp_scan VMain (decoder_start (bytes_of "{""job"":""b"",""level"":""info""}")) 0 k (Decoded 2) /\ k = 2.
+Proof.
+  destruct (decoder_loop_terminates qp_scan VMain qp_scan_consumes (bytes_of "{""job"":""b"",""level"":""info""}")) as [k [R [B U]]].
+  assert (E : stored_labels_fallback qp_scan VMain (bytes_of "{""job"":""b"",""level"":""info""}") = Decoded 2) by (vm_compute; reflexivity).
+  rewrite E in R. exists k. split; [exact R|].
+  assert (R2 : loop_run qp_scan VMain (decoder_start (bytes_of "{""job"":""b"",""level"":""info""}")) 0 2 (Decoded 2)).
+  { eapply LR_round; [reflexivity|vm_compute; reflexivity|vm_compute; reflexivity|].
+    eapply LR_round; [reflexivity|vm_compute; reflexivity|vm_compute; reflexivity|].
+    apply (LR_exit qp_scan VMain ["}"] 2). reflexivity. }
+  apply U in R2. destruct R2 as [K _]. symmetry. exact K.
+Qed.
